@@ -137,6 +137,13 @@ func (h *NFSProcedureHandler) handleCreate(body io.Reader, reply *RPCReply, auth
 		return reply, nil
 	}
 
+	// Apply the owner computed above (effective identity, sattr3 override for root only)
+	if err := h.server.handler.fs.Chown(newNode.path, int(newUID), int(newGID)); err != nil {
+		if h.server.options.Debug {
+			h.server.logger.Printf("CREATE: Chown failed for '%s': %v", newNode.path, err)
+		}
+	}
+
 	dirPostAttrs, err := h.server.handler.GetAttr(node)
 	if err != nil {
 		return nfsErrorWithWcc(reply, mapError(err)), nil
